@@ -252,7 +252,7 @@ func TestVerifC18(t *testing.T) {
 		ev.InfraError("decoder self test: %v", err)
 	}
 	r := ev.New("C18", "exploration")
-	deadline := ev.Deadline(6*time.Minute, 45*time.Minute)
+	deadline := ev.Deadline(10*time.Minute, 45*time.Minute) // safety nets for a loaded machine; idle 16 cores: ~30 s / ~10 min
 	thorough := ev.Thorough()
 	cases := selected(grid(thorough))
 
